@@ -183,7 +183,8 @@ class TradeoffPoints(Contract):
         flipped = R.kind(kk) == 1
         xp, yp = spec_metric(self.xm, fp, tp, tn, fn), spec_metric(self.ym, fp, tp, tn, fn)
         xf, yf = spec_metric(self.xm, tn, fn, fp, tp), spec_metric(self.ym, tn, fn, fp, tp)
-        return And(0 <= c, c <= N, Or(R.kind(kk) == 0, R.kind(kk) == 1), Not(And(t.pinf, t.ninf)),
+        # without flip every rule is a '>' rule (C10: the probability of a positive prediction then never decreases with the score)
+        return And(0 <= c, c <= N, Or(R.kind(kk) == 0, R.kind(kk) == 1) if self.flip else R.kind(kk) == 0, Not(And(t.pinf, t.ninf)),
                    ForAll([j], Implies(And(0 <= j, j < c), gt_ext(Sv(j), t)), patterns=[Sv(j)]),
                    ForAll([j], Implies(And(c <= j, j < N), lt_ext(Sv(j), t)), patterns=[Sv(j)]),
                    R.x.raw(kk) == If(flipped, xf, xp), R.y.raw(kk) == If(flipped, yf, yp))
